@@ -27,7 +27,7 @@ theorem wt_child {op args p} (h : (Term.node op args p).wt = true) : ∀ a ∈ a
   ((wt_node op args p).1 h).1
 
 theorem wt_leaf (op : Op) (p : Payload) (h : (typeOfNode op p []).isSome = true) : (Term.node op [] p).wt = true :=
-  (wt_node op [] p).2 ⟨fun _ ha => nomatch ha, h⟩
+  (wt_node op [] p).2 ⟨fun _ ha => (nomatch ha), h⟩
 
 theorem wt_int (n : Int) : (Term.int n).wt = true := wt_leaf _ _ rfl
 theorem wt_real (q : Rat) : (Term.real q).wt = true := wt_leaf _ _ rfl
@@ -48,7 +48,7 @@ theorem wt_sym (s : Sym) : (Term.sym s).wt = true ↔ s.params = [] := by
     cases hp : s.params with
     | nil => rfl
     | cons a l => rw [hp] at h; simp at h
-  · intro h; rw [h]; exact ⟨fun _ ha => nomatch ha, rfl⟩
+  · intro h; rw [h]; exact ⟨fun _ ha => (nomatch ha), rfl⟩
 
 theorem wt_sym_var (n : String) (t : Ty) : (Term.sym (Sym.var n t)).wt = true := (wt_sym _).2 rfl
 
@@ -151,13 +151,11 @@ theorem WTR_create3 {op p} {a b c : Term} (ha : a.wt = true) (hb : b.wt = true) 
 
 theorem WTR_BV (v : Int) (w : Nat) : WTR (Mk.BV v w) := by
   unfold Mk.BV
-  repeat' apply WTR_ite
-  all_goals first | exact WTR_error _ | exact WTR_ok (wt_bvc _ _)
+  exact WTR_ite (WTR_error _) (WTR_ite (WTR_error _) (WTR_ite (WTR_error _) (WTR_ok (wt_bvc _ _))))
 
 theorem WTR_SBV (v : Int) (w : Nat) : WTR (Mk.SBV v w) := by
   unfold Mk.SBV
-  repeat' apply WTR_ite
-  all_goals first | exact WTR_error _ | exact WTR_BV _ _
+  exact WTR_ite (WTR_error _) (WTR_ite (WTR_error _) (WTR_ite (WTR_error _) (WTR_ite (WTR_BV _ _) (WTR_BV _ _))))
 
 /-! ## Boolean and arithmetic constructors -/
 
@@ -176,8 +174,7 @@ theorem WTR_Function (f : Sym) {params : List Term} (hp : ∀ a ∈ params, a.wt
     rcases hne with h' | h'
     · exact absurd this h'
     · exact WTR_ok ((wt_sym f).2 h')
-  · repeat' apply WTR_ite
-    all_goals first | exact WTR_error _ | exact WTR_create hp
+  · exact WTR_ite (WTR_error _) (WTR_ite (WTR_error _) (WTR_create hp))
 
 theorem WTR_Not {f : Term} (hf : f.wt = true) : WTR (Mk.Not f) := by
   unfold Mk.Not
@@ -359,8 +356,7 @@ theorem WTR_BVExtract {f : Term} (hf : f.wt = true) (start : Int) (stop : Option
   unfold Mk.BVExtract
   refine WTR_bind_any (fun w => ?_)
   dsimp only
-  repeat' apply WTR_ite
-  all_goals first | exact WTR_error _ | exact WTR_create1 hf
+  exact WTR_ite (WTR_error _) (WTR_ite (WTR_error _) (WTR_create1 hf))
 
 theorem WTR_BVULT {l r : Term} (hl : l.wt = true) (hr : r.wt = true) : WTR (Mk.BVULT l r) := WTR_create2 hl hr
 theorem WTR_BVUGT {l r : Term} (hl : l.wt = true) (hr : r.wt = true) : WTR (Mk.BVUGT l r) := WTR_create2 hr hl
